@@ -104,6 +104,42 @@ def gen_program(rng, dyadic=False, with_evidence=True):
     return prog
 
 
+def gen_exhaustive_ad(split, order, with_rules=False):
+    """One AD with decimal probabilities i/100 that sum to exactly 1; `order` = order in which the heads are met
+    (query order).  Every head can be the last one encountered."""
+    heads = [("a0_%d" % j, "%.2f" % (Fraction(i, 100))) for j, i in enumerate(split)]
+    assert sum(Fraction(p) for _, p in heads) == 1
+    items = [{"kind": "ad", "heads": heads, "text_order": list(range(len(heads))), "body": []}]
+    lines = ["; ".join("%s::%s" % (p, h) for h, p in heads) + "."]
+    queries = [heads[j][0] for j in order]
+    if with_rules:
+        for n, j in enumerate(order):
+            items.append({"kind": "rule", "head": "d%d" % n, "bodies": [[(heads[j][0], True)]]})
+            lines.append("d%d :- %s." % (n, heads[j][0]))
+        queries = ["d%d" % n for n in range(len(order))]
+    prog = {"facts": [], "items": items, "queries": queries, "evidence": [], "dyadic": False, "exhaustive": True}
+    prog["text"] = "\n".join(lines + ["query(%s)." % q for q in queries]) + "\n"
+    return prog
+
+
+def exhaustive_family(ctx):
+    """All 99 two-head splits i/100 in both encounter orders, plus random three-head splits with every head last."""
+    out = []
+    for i in range(1, 100):
+        for order in ([0, 1], [1, 0]):
+            out.append(gen_exhaustive_ad([i, 100 - i], order, with_rules=(i % 7 == 0)))
+    for _ in range(ctx.n(40, 400)):
+        i = ctx.rng.randint(1, 97)
+        j = ctx.rng.randint(1, 98 - i)
+        order = [0, 1, 2]
+        ctx.rng.shuffle(order)
+        out.append(gen_exhaustive_ad([i, j, 100 - i - j], order, with_rules=ctx.rng.random() < 0.3))
+    return out
+
+
+HIGH = Fraction((1 << 24) - 1, 1 << 24)     # a draw above every threshold p/r < 1 - 6e-8: all earlier heads come out false
+
+
 def lits(b):
     return ", ".join(a if pos else "\\+" + a for a, pos in b)
 
@@ -308,10 +344,52 @@ def judge_attempt(prog, table, att):
         for j, (h, p) in enumerate(a["heads"]):
             head_of[h] = (k, j, p)
     fmemo, hmemo = {}, {}
+    replay = not att.get("forced")          # exact-rational replay of the documented sampling rule
+    draws = list(att.get("draws") or [])
+    dpos = 0
+    seen_ids = set()
+    g_rem, g_closed = {}, set()             # exact remaining mass / closed flag per AD (by group repr)
+    CUT = Fraction(1, 10 ** 8)
+    NEAR = Fraction(1, 10 ** 9)
     for (ident, pstr, group, name, r, nd, pa, ga) in att["calls"]:
         if pstr is None:
             continue
         v = (r == 0)
+        if replay:
+            first = repr(ident) not in seen_ids
+            seen_ids.add(repr(ident))
+            u = None
+            if nd == 1 and dpos < len(draws):
+                u = draws[dpos]
+            dpos += nd
+            pq = Fraction(pstr)
+            if not first:
+                if nd:
+                    out.append("%s was already sampled but consumed another draw" % name)
+            elif group is None:
+                if nd != 1:
+                    out.append("fact %s was decided without exactly one draw" % name)
+                elif u is not None and abs(u - pq) > NEAR and v != (u < pq):
+                    out.append("fact %s: draw %s against p=%s gave %s" % (name, float(u), pstr, v))
+            else:
+                gk = repr(group)
+                rem = g_rem.get(gk, Fraction(1))
+                if gk in g_closed:
+                    if nd or v:
+                        out.append("head %s sampled although another head of its AD was already chosen" % name)
+                elif nd == 0:
+                    # the code may skip the draw only below its documented cut-off (remaining mass < 1e-8)
+                    if rem >= 2 * CUT and pq > 0:
+                        out.append("head %s (p=%s) was declared %s WITHOUT a draw although the exact remaining mass of its AD is %s "
+                                   "(documented cut-off 1e-8)" % (name, pstr, v, float(rem)))
+                elif rem > 0 and u is not None:
+                    q = pq / rem
+                    if abs(u - q) > NEAR and v != (u <= q):
+                        out.append("head %s: draw %s against p/r=%s gave %s" % (name, float(u), float(q), v))
+                if v:
+                    g_closed.add(gk)
+                else:
+                    g_rem[gk] = rem - pq
         if group is None and str(name) in head_of:      # single-head AD without body = plain fact
             nm = str(name)
             if hmemo.setdefault(nm, v) != v:
@@ -353,6 +431,16 @@ def judge_attempt(prog, table, att):
                 prod *= Fraction(a["heads"][chosen[k]][1])
         else:
             prod *= 1 - sum(Fraction(p) for h, p in a["heads"] if h in hmemo and h not in forced)
+    if not forced:
+        if att["printed"] <= 0:
+            out.append("printed probability %r is not positive" % att["printed"])
+        for k, a in enumerate(ads):
+            if sum(Fraction(p) for _, p in a["heads"]) == 1 and k not in chosen and \
+                    all(h in hmemo for h, _ in a["heads"]):
+                out.append("AD %s sums to 1 but every head was sampled false (a world of probability 0)"
+                           % "; ".join("%s::%s" % (p, h) for h, p in a["heads"]))
+        if prod <= 0:
+            out.append("the sampled choices have probability 0 under the program")
     if abs(Fraction(att["printed"]) - prod) > Fraction(1, 10 ** 9):
         out.append("printed probability %r is not the product of the choices made %s" % (att["printed"], float(prod)))
     # completions of the partial world
@@ -398,12 +486,19 @@ def judge_attempt(prog, table, att):
 def run_scripted(ctx):
     nprog = ctx.n(80, 2500)
     cases, metas = [], []
+    jobs = []
     for k in range(nprog):
         dyadic = ctx.rng.random() < 0.5
         prog = gen_program(ctx.rng, dyadic=dyadic)
-        us = gen_script(ctx.rng, prog)
+        jobs.append((prog, gen_script(ctx.rng, prog), 2))
+    # ADs whose decimal probabilities sum to exactly 1, every head last, all earlier heads false: the last head must
+    # be chosen (float 1 - p1 - ... may land one ulp off p_k)
+    for prog in exhaustive_family(ctx):
+        jobs.append((prog, [HIGH] * 8, 1))
+        ctx.count("exhaustive_ad_programs")
+    for prog, us, nsam in jobs:
         try:
-            attempts, err, other = pl.with_timeout(scripted_attempts, 60, prog["text"], us, 2, False)
+            attempts, err, other = pl.with_timeout(scripted_attempts, 60, prog["text"], us, nsam, False)
         except BaseException as e:  # noqa
             if isinstance(e, (KeyboardInterrupt, SystemExit)):
                 raise
@@ -600,6 +695,13 @@ def run_statistics(ctx):
         prog["cond"] = cond
         progs.append(prog)
     items = []
+    extra = []
+    for n in range(ctx.n(3, 12)):
+        i = ctx.rng.randint(5, 95)
+        prog = gen_exhaustive_ad([i, 100 - i], [n % 2, 1 - n % 2])
+        prog["cond"] = exact_conditional(prog)[1]
+        extra.append(prog)
+        items.append((prog["text"], nsamp, "sample", 4000 + n))
     for i, prog in enumerate(progs[:nprog]):
         items.append((prog["text"], nsamp, "sample", 1000 + i))
         if i % 2 == 0:
@@ -609,7 +711,7 @@ def run_statistics(ctx):
             items.append((prog["text"], nsamp, "propagate", 3000 + i))
     ctx.log("propagate probes done; %d statistical jobs" % len(items))
     results = pl.pmap(stat_worker, items, jobs=10, chunksize=1)
-    lookup = {p["text"]: p for p in progs}
+    lookup = {p["text"]: p for p in progs + extra}
     ncmp = sum(len(lookup[it[0]]["queries"]) for it in items)
     delta = 1e-9 / max(1, ncmp)
     t = math.sqrt(math.log(2.0 / delta) / (2.0 * nsamp))
@@ -631,7 +733,8 @@ def run_statistics(ctx):
         for q, p in prog["cond"].items():
             f = res[1].get(q, 0.0)
             ctx.case(("stat", src, mode, q), 0 < p < 1, sample=None)
-            if abs(f - float(p)) > t:
+            zero = (f == 0.0 and p > 0 and n * math.log(1.0 - float(p)) < math.log(delta)) if p < 1 else (f == 0.0)
+            if abs(f - float(p)) > t or zero:
                 klass = None
                 if mode == "propagate":
                     try:
